@@ -1,1 +1,732 @@
+(* C12/Proofs.v — invariants and lemmas for the restart model *)
 From OV Require Import Common.Base C12.Model.
+From Coq Require Import ZifyBool ZifyNat ZifyN.
+Open Scope N_scope.
+
+(* ---------------------------------------------------------------- association lists *)
+Section AssocLemmas.
+  Context {V : Type}.
+  Implicit Types l : list (N * V).
+
+  Lemma aget_aremove_eq k l : aget k (aremove k l) = None.
+  Proof.
+    induction l as [|[k' v] l IH]; cbn [aremove aget]; auto.
+    destruct (N.eqb k k') eqn:E; auto. cbn [aget]. rewrite E. auto.
+  Qed.
+  Lemma aget_aremove_neq k k' l : k <> k' -> aget k (aremove k' l) = aget k l.
+  Proof.
+    intros H. induction l as [|[k2 v] l IH]; cbn [aremove aget]; auto.
+    destruct (N.eqb k' k2) eqn:E.
+    - apply N.eqb_eq in E. subst. destruct (N.eqb k k2) eqn:E2; auto. apply N.eqb_eq in E2. congruence.
+    - cbn [aget]. rewrite IH. auto.
+  Qed.
+  Lemma aget_aput_eq k v l : aget k (aput k v l) = Some v.
+  Proof. unfold aput. cbn [aget]. rewrite N.eqb_refl. auto. Qed.
+  Lemma aget_aput_neq k k' v l : k <> k' -> aget k (aput k' v l) = aget k l.
+  Proof.
+    intros H. unfold aput. cbn [aget]. destruct (N.eqb k k') eqn:E.
+    - apply N.eqb_eq in E. congruence.
+    - apply aget_aremove_neq; auto.
+  Qed.
+  Lemma aget_aput k k' v l : aget k (aput k' v l) = if N.eqb k k' then Some v else aget k l.
+  Proof.
+    destruct (N.eqb k k') eqn:E.
+    - apply N.eqb_eq in E. subst. apply aget_aput_eq.
+    - apply aget_aput_neq. intro. subst. rewrite N.eqb_refl in E. discriminate.
+  Qed.
+  Lemma aget_aremove k k' l : aget k (aremove k' l) = if N.eqb k k' then None else aget k l.
+  Proof.
+    destruct (N.eqb k k') eqn:E.
+    - apply N.eqb_eq in E. subst. apply aget_aremove_eq.
+    - apply aget_aremove_neq. intro. subst. rewrite N.eqb_refl in E. discriminate.
+  Qed.
+  Lemma aget_app k l1 l2 : aget k (l1 ++ l2) = match aget k l1 with Some v => Some v | None => aget k l2 end.
+  Proof.
+    induction l1 as [|[k' v] l1 IH]; cbn [app aget]; auto. destruct (N.eqb k k'); auto.
+  Qed.
+  Lemma aget_In k v l : aget k l = Some v -> In k (map fst l).
+  Proof.
+    induction l as [|[k' v'] l IH]; cbn [aget map fst]; try discriminate.
+    destruct (N.eqb k k') eqn:E; intros H.
+    - apply N.eqb_eq in E. subst. left. auto.
+    - right. auto.
+  Qed.
+End AssocLemmas.
+
+Lemma nmem_In k l : nmem k l = true <-> In k l.
+Proof.
+  unfold nmem. rewrite existsb_exists. split.
+  - intros [x [H E]]. apply N.eqb_eq in E. subst. auto.
+  - intros H. exists k. split; auto. apply N.eqb_refl.
+Qed.
+Lemma nmem_cons k x l : nmem k (x :: l) = N.eqb k x || nmem k l.
+Proof. reflexivity. Qed.
+
+Lemma ins_In x y l : In x (ins y l) <-> x = y \/ In x l.
+Proof.
+  induction l as [|z l IH]; cbn [ins].
+  - cbn. intuition.
+  - destruct (N.ltb y z) eqn:E1.
+    + cbn. intuition.
+    + destruct (N.eqb y z) eqn:E2.
+      * apply N.eqb_eq in E2. subst. cbn. intuition.
+      * cbn [In]. rewrite IH. intuition.
+Qed.
+Lemma isort_In x l : In x (isort l) <-> In x l.
+Proof.
+  induction l as [|y l IH]; cbn [isort fold_right]; [tauto|].
+  fold (isort l). rewrite ins_In, IH. cbn. intuition.
+Qed.
+
+(* ---------------------------------------------------------------- invariant 1: identities, tickets, released sessions *)
+Record inv1 (s : st) : Prop := {
+  i_store_id : forall k r, aget k (store s) = Some r -> s_id r = k;
+  i_live_id : forall k r, aget k (live s) = Some r -> s_id r = k;
+  i_pend_tick : forall t r, aget t (pend s) = Some r -> t < tick s;
+  i_appl_tick : forall i a, aget i (applied s) = Some a -> a < tick s;
+  i_rel_used : forall i, In i (released s) -> In i (used s);
+  i_store_used : forall k r, aget k (store s) = Some r -> In k (used s);
+  i_live_used : forall k r, aget k (live s) = Some r -> In k (used s);
+  i_pend_used : forall t r, aget t (pend s) = Some r -> In (s_id r) (used s);
+  i_gone : forall i, In i (released s) ->
+           aget i (store s) = None /\ aget i (live s) = None /\
+           exists a, aget i (applied s) = Some a /\
+                     forall t r, aget t (pend s) = Some r -> s_id r = i -> t < a }.
+
+Lemma inv1_init : inv1 init.
+Proof. constructor; cbn; intros; try discriminate; try contradiction. Qed.
+
+Lemma set_stamp_id r t : s_id (set_stamp r t) = s_id r. Proof. reflexivity. Qed.
+Lemma set_appr_id r b : s_id (set_appr r b) = s_id r. Proof. reflexivity. Qed.
+Lemma set_prog_id r sw : s_id (set_prog r sw) = s_id r. Proof. reflexivity. Qed.
+Lemma set_stamp_addrs r t : addrs (set_stamp r t) = addrs r. Proof. reflexivity. Qed.
+Lemma set_appr_addrs r b : addrs (set_appr r b) = addrs r. Proof. reflexivity. Qed.
+Lemma set_prog_addrs r sw : addrs (set_prog r sw) = addrs r. Proof. reflexivity. Qed.
+
+Ltac eqb_case k k' :=
+  let E := fresh "E" in
+  destruct (N.eqb k k') eqn:E; [apply N.eqb_eq in E; subst | apply N.eqb_neq in E].
+
+Lemma aget_snoc {V} t t0 (v : V) l r :
+  aget t (l ++ [(t0, v)]) = Some r -> aget t l = Some r \/ (t = t0 /\ r = v).
+Proof.
+  rewrite aget_app. destruct (aget t l); auto. cbn [aget].
+  destruct (N.eqb t t0) eqn:E; try discriminate. apply N.eqb_eq in E. intros H. inversion H. auto.
+Qed.
+
+Lemma do_new_inv1 c s n o4 o6 opd s' o :
+  inv1 s -> do_new c s n o4 o6 opd = Some (s', o) -> inv1 s'.
+Proof.
+  intros I H. unfold do_new in H.
+  destruct (nmem (n_id n) (used s)) eqn:U; [inversion H; subst; auto|].
+  destruct (take_addr c (n_id n) (leases s) 0 (n_a4 n) o4) as [[a4 l1]|]; try discriminate.
+  destruct (take_addr c (n_id n) l1 1 (n_a6 n) o6) as [[a6 l2]|]; try discriminate.
+  destruct (take_addr c (n_id n) l2 2 (n_apd n) opd) as [[apd l3]|]; try discriminate.
+  assert (NU : ~ In (n_id n) (used s)) by (rewrite <- nmem_In; congruence).
+  destruct I.
+  destruct (n_crea n) eqn:CR.
+  - destruct (dp_add (n_id n) (dp s) (dpnext s)) as [[sw d1] nx1]. inversion H; subst s' o; clear H.
+    constructor; cbn [store live pend tick applied released used]; auto.
+    + intros k r. rewrite aget_aput. eqb_case k (n_id n); [intros H; inversion H; auto | auto].
+    + intros i Hi. right. auto.
+    + intros k r Hk. right. eauto.
+    + intros k r. rewrite aget_aput. eqb_case k (n_id n); [left; auto | right; eauto].
+    + intros t r Hk. right. eauto.
+    + intros i Hi. destruct (i_gone0 i Hi) as (A & B & C). repeat split; auto.
+      rewrite aget_aput_neq; auto. intro; subst. apply NU. auto.
+  - inversion H; subst s' o; clear H.
+    constructor; cbn [store live pend tick applied released used]; auto.
+    + intros k r. rewrite aget_aput. eqb_case k (n_id n); [intros H; inversion H; auto | auto].
+    + intros i Hi. right. auto.
+    + intros k r Hk. right. eauto.
+    + intros k r. rewrite aget_aput. eqb_case k (n_id n); [left; auto | right; eauto].
+    + intros t r Hk. right. eauto.
+    + intros i Hi. destruct (i_gone0 i Hi) as (A & B & C). repeat split; auto.
+      rewrite aget_aput_neq; auto. intro; subst. apply NU. auto.
+Qed.
+
+Lemma do_ck_inv1 s i : inv1 s -> inv1 (fst (do_ck s i)).
+Proof.
+  intros I. unfold do_ck. destruct (aget i (live s)) as [r|] eqn:L; auto. destruct I.
+  assert (NR : ~ In i (released s)).
+  { intros Hi. destruct (i_gone0 i Hi) as (_ & B & _). congruence. }
+  constructor; cbn [fst store live pend tick applied released used]; auto.
+  - intros k r0. rewrite aget_aput. eqb_case k i; [intros H; inversion H; cbn; eauto | auto].
+  - intros t r0 H. apply aget_snoc in H. destruct H as [H|[H _]]; [apply i_pend_tick0 in H|]; lia.
+  - intros j a H. apply i_appl_tick0 in H. lia.
+  - intros k r0. rewrite aget_aput. eqb_case k i; eauto.
+  - intros t r0 H. apply aget_snoc in H. destruct H as [H|[_ H]]; eauto. subst.
+    rewrite set_stamp_id. rewrite (i_live_id0 _ _ L). eauto.
+  - intros j Hj. destruct (i_gone0 j Hj) as (A & B & a & C & D). repeat split; auto.
+    + rewrite aget_aput_neq; auto. intro; subst. auto.
+    + exists a. split; auto. intros t r0 H E. apply aget_snoc in H. destruct H as [H|[_ H]]; eauto.
+      subst. rewrite set_stamp_id, (i_live_id0 _ _ L) in *. subst. contradiction.
+Qed.
+
+Lemma do_cks_inv1 s i : inv1 s -> inv1 (fst (do_cks s i)).
+Proof.
+  intros I. unfold do_cks. destruct (aget i (live s)) as [r|] eqn:L; auto. destruct I.
+  assert (NR : ~ In i (released s)).
+  { intros Hi. destruct (i_gone0 i Hi) as (_ & B & _). congruence. }
+  constructor; cbn [fst store live pend tick applied released used]; auto.
+  - intros k r0. rewrite aget_aput. eqb_case k i; [intros H; inversion H; cbn; eauto | auto].
+  - intros k r0. rewrite aget_aput. eqb_case k i; [intros H; inversion H; cbn; eauto | auto].
+  - intros t r0 H. apply i_pend_tick0 in H. lia.
+  - intros j a. rewrite aget_aput. eqb_case j i; [intros H; inversion H; lia|]. intros H. apply i_appl_tick0 in H. lia.
+  - intros k r0. rewrite aget_aput. eqb_case k i; eauto.
+  - intros k r0. rewrite aget_aput. eqb_case k i; eauto.
+  - intros j Hj. destruct (i_gone0 j Hj) as (A & B & a & C & D).
+    assert (j <> i) by (intro; subst; auto).
+    rewrite !aget_aput_neq; auto; repeat split; eauto.
+Qed.
+
+Lemma do_rel_inv1 s i : inv1 s -> inv1 (fst (do_rel s i)).
+Proof.
+  intros I. unfold do_rel. destruct (aget i (live s)) as [r|] eqn:L; auto. destruct I.
+  constructor; cbn [fst store live pend tick applied released used]; auto.
+  - intros k r0. rewrite aget_aremove. eqb_case k i; [discriminate|auto].
+  - intros k r0. rewrite aget_aremove. eqb_case k i; [discriminate|auto].
+  - intros t r0 H. apply i_pend_tick0 in H. lia.
+  - intros j a. rewrite aget_aput. eqb_case j i; [intros H; inversion H; lia|]. intros H. apply i_appl_tick0 in H. lia.
+  - intros j [Hj|Hj]; subst; eauto.
+  - intros k r0. rewrite aget_aremove. eqb_case k i; [discriminate|eauto].
+  - intros k r0. rewrite aget_aremove. eqb_case k i; [discriminate|eauto].
+  - intros j [Hj|Hj].
+    + subst j. rewrite !aget_aremove_eq, aget_aput_eq. repeat split; auto.
+      exists (tick s). split; auto. intros t r0 H _. eauto.
+    + destruct (i_gone0 j Hj) as (A & B & a & C & D).
+      assert (j <> i) by (intro; subst; congruence).
+      rewrite !aget_aremove_neq, aget_aput_neq; auto; repeat split; eauto.
+Qed.
+
+Lemma do_done_inv1 c s t : c_ordered c = true -> inv1 s -> inv1 (fst (do_done c s t)).
+Proof.
+  intros O I. unfold do_done. destruct (aget t (pend s)) as [r|] eqn:P; auto.
+  assert (SUB : forall t' r', aget t' (aremove t (pend s)) = Some r' -> aget t' (pend s) = Some r').
+  { intros t' r'. rewrite aget_aremove. destruct (N.eqb t' t); [discriminate|auto]. }
+  destruct I.
+  destruct (effective c s (s_id r) t) eqn:EF; cbn [fst].
+  - assert (NR : ~ In (s_id r) (released s)).
+    { intros Hi. destruct (i_gone0 _ Hi) as (_ & _ & a & C & D).
+      unfold effective in EF. rewrite O, C in EF. specialize (D _ _ P eq_refl). lia. }
+    constructor; cbn [store live pend tick applied released used]; auto.
+    + intros k r0. rewrite aget_aput. eqb_case k (s_id r); [intros H; inversion H; auto | auto].
+    + intros t' r' H. eauto.
+    + intros j a. rewrite aget_aput. eqb_case j (s_id r); [intros H; inversion H; subst; eauto|eauto].
+    + intros k r0. rewrite aget_aput. eqb_case k (s_id r); eauto.
+    + intros t' r' H. eauto.
+    + intros j Hj. destruct (i_gone0 j Hj) as (A & B & a & C & D).
+      assert (j <> s_id r) by (intro; subst; auto).
+      rewrite !aget_aput_neq; auto; repeat split; auto; exists a; split; auto; intros; eauto.
+  - constructor; cbn [store live pend tick applied released used]; auto.
+    + intros t' r' H. eauto.
+    + intros t' r' H. eauto.
+    + intros j Hj. destruct (i_gone0 j Hj) as (A & B & a & C & D). repeat split; auto.
+      exists a. split; auto. intros; eauto.
+Qed.
+
+(* ---- the restore loop keeps invariant 1 ---- *)
+Lemma inv1_rm_store s k : inv1 s -> inv1 (upd_store s (aremove k (store s))).
+Proof.
+  intros []. constructor; cbn [upd_store store live pend tick applied released used]; auto.
+  - intros k0 r. rewrite aget_aremove. destruct (N.eqb k0 k); [discriminate|auto].
+  - intros k0 r. rewrite aget_aremove. destruct (N.eqb k0 k); [discriminate|eauto].
+  - intros i Hi. destruct (i_gone0 i Hi) as (A & B & C). repeat split; auto.
+    rewrite aget_aremove. destruct (N.eqb i k); auto.
+Qed.
+
+Lemma inv1_put_store s k r :
+  inv1 s -> s_id r = k -> In k (used s) -> ~ In k (released s) -> inv1 (upd_store s (aput k r (store s))).
+Proof.
+  intros [] ID U NR. subst k. constructor; cbn [upd_store store live pend tick applied released used]; auto.
+  - intros k0 r0. rewrite aget_aput. eqb_case k0 (s_id r); [intros H; inversion H; auto|auto].
+  - intros k0 r0. rewrite aget_aput. eqb_case k0 (s_id r); eauto.
+  - intros i Hi. destruct (i_gone0 i Hi) as (A & B & C). repeat split; auto.
+    rewrite aget_aput_neq; auto. intro; subst; auto.
+Qed.
+
+Lemma inv1_install c s k r :
+  inv1 s -> s_id r = k -> In k (used s) -> ~ In k (released s) -> inv1 (install c s k r).
+Proof.
+  intros [] ID U NR. constructor; cbn [install store live pend tick applied released used]; auto.
+  - intros k0 r0. rewrite aget_aput. eqb_case k0 k; [intros H; inversion H; subst; auto|auto].
+  - intros k0 r0. rewrite aget_aput. eqb_case k0 k; eauto.
+  - intros i Hi. destruct (i_gone0 i Hi) as (A & B & C). repeat split; auto.
+    rewrite aget_aput_neq; auto. intro; subst; auto.
+Qed.
+
+Lemma inv1_replay s k r' ls d nx :
+  inv1 s -> s_id r' = k -> In k (used s) -> ~ In k (released s) ->
+  inv1 {| store := store s; pend := pend s ++ [(tick s, r')]; tick := tick s + 1; applied := applied s;
+          live := aput k r' (live s); leases := ls; dp := d; dpnext := nx;
+          released := released s; used := used s |}.
+Proof.
+  intros [] ID U NR. constructor; cbn [store live pend tick applied released used]; auto.
+  - intros k0 r0. rewrite aget_aput. eqb_case k0 k; [intros H; inversion H; subst; auto|auto].
+  - intros t r0 H. apply aget_snoc in H. destruct H as [H|[H _]]; [apply i_pend_tick0 in H|]; lia.
+  - intros j a H. apply i_appl_tick0 in H. lia.
+  - intros k0 r0. rewrite aget_aput. eqb_case k0 k; eauto.
+  - intros t r0 H. apply aget_snoc in H. destruct H as [H|[_ H]]; eauto. subst. auto.
+  - intros i Hi. destruct (i_gone0 i Hi) as (A & B & a & C & D). repeat split; auto.
+    + rewrite aget_aput_neq; auto. intro; subst; auto.
+    + exists a. split; auto. intros t r0 H E. apply aget_snoc in H. destruct H as [H|[_ H]]; eauto.
+      subst. contradiction.
+Qed.
+
+Definition ghost_eq (s s' : st) : Prop := used s' = used s /\ released s' = released s.
+
+Lemma restore_one_inv1 c now fail cause store0 s lg k :
+  (forall k r, aget k store0 = Some r -> s_id r = k /\ In k (used s) /\ ~ In k (released s)) ->
+  inv1 s ->
+  inv1 (fst (restore_one c now fail cause store0 (s, lg) k)) /\
+  ghost_eq s (fst (restore_one c now fail cause store0 (s, lg) k)).
+Proof.
+  intros H0 I. unfold restore_one, ghost_eq.
+  destruct (aget k store0) as [r|] eqn:G; [|cbn; auto].
+  destruct (H0 _ _ G) as (ID & U & NR).
+  destruct (expired c now r).
+  { cbn [fst]. split; [apply inv1_rm_store; auto | cbn; auto]. }
+  destruct (match c_proto c with IPoE => s_appr r && negb (s_crea r) | PPPoE => false end).
+  { cbn [fst]. split; [|cbn; auto].
+    apply inv1_install; cbn [upd_store used released]; auto. apply inv1_put_store; auto. }
+  assert (I1 : inv1 (install c s k r)) by (apply inv1_install; auto).
+  destruct (replayed c r); [|cbn; auto].
+  destruct (match fail with Some f => f =? k | None => false end); [cbn; auto|].
+  destruct (dp_add k (dp (install c s k r)) (dpnext (install c s k r))) as [[sw d1] nx1].
+  cbn [fst]. split; [|cbn; auto].
+  apply (inv1_replay (install c s k r) k (set_prog r sw)); auto.
+Qed.
+
+Lemma restore_fold_inv1 c now fail cause store0 ks : forall s lg,
+  (forall k r, aget k store0 = Some r -> s_id r = k /\ In k (used s) /\ ~ In k (released s)) ->
+  inv1 s ->
+  inv1 (fst (fold_left (restore_one c now fail cause store0) ks (s, lg))) /\
+  ghost_eq s (fst (fold_left (restore_one c now fail cause store0) ks (s, lg))).
+Proof.
+  induction ks as [|k ks IH]; intros s lg H0 I; cbn [fold_left].
+  - cbn. unfold ghost_eq. auto.
+  - destruct (restore_one_inv1 c now fail cause store0 s lg k H0 I) as (I' & GU & GR).
+    destruct (restore_one c now fail cause store0 (s, lg) k) as [s1 lg1] eqn:E. cbn [fst] in *.
+    destruct (IH s1 lg1) as (I2 & GU2 & GR2); auto.
+    + intros k0 r0 G. rewrite GU, GR. auto.
+    + split; auto. unfold ghost_eq. rewrite GU2, GR2. auto.
+Qed.
+
+Lemma do_crash_inv1 c s p f now : inv1 s -> inv1 (fst (do_crash c s p f now)).
+Proof.
+  intros I. unfold do_crash.
+  set (s0 := {| store := store s; pend := []; tick := tick s; applied := applied s; live := [];
+                leases := []; dp := if p then dp s else []; dpnext := if p then dpnext s else swif_base;
+                released := released s; used := used s |}).
+  assert (I0 : inv1 s0).
+  { destruct I. constructor; cbn [s0 store live pend tick applied released used]; auto;
+      try (intros; discriminate).
+    intros i Hi. destruct (i_gone0 i Hi) as (A & B & a & C & D). repeat split; auto.
+    exists a. split; auto. intros; discriminate. }
+  destruct (restore_fold_inv1 c now f (match (if p then dp s else []) with [] => 1 | _ => 0 end)
+              (store s) (isort (map fst (store s))) s0 []) as (I2 & _); auto.
+  { intros k r G. destruct I. cbn [s0 used released]. repeat split; eauto.
+    intros Hi. destruct (i_gone0 k Hi) as (A & _). congruence. }
+  destruct (fold_left _ _ _) as [s1 lg]. cbn [fst] in *. auto.
+Qed.
+
+Lemma step_inv1 c s o s' out :
+  c_ordered c = true -> inv1 s -> step c s o = Some (s', out) -> inv1 s'.
+Proof.
+  intros O I H. destruct o; cbn [step] in H.
+  - eapply do_new_inv1; eauto.
+  - inversion H. change s' with (fst (s', out)). rewrite <- H1. apply do_ck_inv1; auto.
+  - inversion H. change s' with (fst (s', out)). rewrite <- H1. apply do_cks_inv1; auto.
+  - inversion H. change s' with (fst (s', out)). rewrite <- H1. apply do_rel_inv1; auto.
+  - inversion H. change s' with (fst (s', out)). rewrite <- H1. apply do_done_inv1; auto.
+  - inversion H. change s' with (fst (s', out)). rewrite <- H1. apply do_crash_inv1; auto.
+Qed.
+
+Lemma run_inv (P : st -> Prop) c :
+  (forall s o s' out, P s -> step c s o = Some (s', out) -> P s') ->
+  forall ops s s', P s -> run c s ops = Some s' -> P s'.
+Proof.
+  intros HS. induction ops as [|o ops IH]; intros s s' I H; cbn [run] in H.
+  - inversion H; subst; auto.
+  - destruct (step c s o) as [[s1 out]|] eqn:E; try discriminate.
+    apply (IH s1 s'); auto. apply (HS s o s1 out); auto.
+Qed.
+
+Lemma run_app c ops1 : forall ops2 s s1, run c s ops1 = Some s1 -> run c s (ops1 ++ ops2) = run c s1 ops2.
+Proof.
+  induction ops1 as [|o ops1 IH]; intros ops2 s s1 H; cbn [run app] in *.
+  - inversion H; auto.
+  - destruct (step c s o) as [[s2 out]|]; try discriminate. auto.
+Qed.
+
+(* T1 *)
+Lemma released_stay_gone c ops s :
+  c_ordered c = true -> run c init ops = Some s ->
+  (forall i, In i (released s) -> aget i (live s) = None /\ aget i (store s) = None) /\
+  (forall p f now i, In i (released s) ->
+     let s' := fst (do_crash c s p f now) in
+     In i (released s') /\ aget i (live s') = None /\ aget i (store s') = None).
+Proof.
+  intros O R.
+  assert (I : inv1 s).
+  { eapply (run_inv inv1 c); eauto using inv1_init. intros. eapply step_inv1; eauto. }
+  split.
+  - intros i Hi. destruct (i_gone s I i Hi) as (A & B & _). auto.
+  - intros p f now i Hi s'.
+    assert (I' : inv1 s') by (apply do_crash_inv1; auto).
+    assert (G : released s' = released s).
+    { unfold s', do_crash.
+      destruct (restore_fold_inv1 c now f (match (if p then dp s else []) with [] => 1 | _ => 0 end)
+              (store s) (isort (map fst (store s)))
+              {| store := store s; pend := []; tick := tick s; applied := applied s; live := [];
+                 leases := []; dp := if p then dp s else []; dpnext := if p then dpnext s else swif_base;
+                 released := released s; used := used s |} []) as (_ & _ & GR).
+      - intros k r G. destruct I. cbn [used released]. repeat split; eauto.
+        intros Hk. destruct (i_gone0 k Hk) as (A & _). congruence.
+      - destruct I. constructor; cbn [store live pend tick applied released used]; auto;
+          try (intros; discriminate).
+        intros j Hj. destruct (i_gone0 j Hj) as (A & B & a & C & D). repeat split; auto.
+        exists a. split; auto. intros; discriminate.
+      - destruct (fold_left _ _ _) as [s1 lg]. cbn [fst] in *. auto. }
+    assert (Hi' : In i (released s')) by (rewrite G; auto).
+    destruct (i_gone s' I' i Hi') as (A & B & _). auto.
+Qed.
+
+(* ---------------------------------------------------------------- T2: established sessions are restored *)
+Definition same_core (r r' : sess) : Prop :=
+  s_id r' = s_id r /\ s_bound r' = s_bound r /\ s_v4 r' = s_v4 r /\ s_v6 r' = s_v6 r /\ s_pd r' = s_pd r /\
+  s_stamp r' = s_stamp r /\ s_l4 r' = s_l4 r /\ s_b4 r' = s_b4 r /\ s_l6 r' = s_l6 r /\ s_b6 r' = s_b6 r /\
+  s_v6b r' = s_v6b r.
+
+Lemma same_core_refl r : same_core r r. Proof. repeat split. Qed.
+Lemma same_core_prog r sw : same_core r (set_prog r sw). Proof. repeat split. Qed.
+Lemma same_core_appr r b : same_core r (set_appr r b). Proof. repeat split. Qed.
+
+Definition fails (f : option N) (k : N) : bool := match f with Some x => x =? k | None => false end.
+
+(* what the restore of session k (image r) must have produced *)
+Definition restoredQ (c : cfg) (f : option N) (cause : N) (dp0 : list (N * dpe)) (k : N) (r : sess)
+           (s : st) (lg : list tok) : Prop :=
+  exists r', aget k (live s) = Some r' /\ same_core r r' /\
+    (replayed c r = true -> fails f k = false ->
+       exists sw, r' = set_prog r sw /\
+         In (TA k sw) lg /\ In (TR k cause) lg /\ In (TU k) lg /\ In (TV k) lg /\
+         (forall a, s_v4 r = Some a -> In (T4 k a) lg) /\
+         (forall a, s_v6 r = Some a -> In (T6 k a) lg) /\
+         (forall a, s_pd r = Some a -> In (TP k a) lg) /\
+         (exists e, aget k (dp s) = Some e /\ d_swif e = sw /\
+                    (forall a, s_v4 r = Some a -> d_v4 e = Some a) /\
+                    (forall a, s_v6 r = Some a -> d_v6 e = Some a) /\
+                    (forall a, s_pd r = Some a -> d_pd e = Some a)) /\
+         (forall e0, aget k dp0 = Some e0 -> sw = d_swif e0)).
+
+Definition dpinv (dp0 : list (N * dpe)) (k : N) (s : st) : Prop :=
+  forall e0, aget k dp0 = Some e0 -> exists e, aget k (dp s) = Some e /\ d_swif e = d_swif e0.
+
+Lemma dp_add_spec k d nx sw d1 nx1 :
+  dp_add k d nx = (sw, d1, nx1) ->
+  (exists e, aget k d1 = Some e /\ d_swif e = sw) /\
+  (forall e0, aget k d = Some e0 -> sw = d_swif e0) /\
+  (forall k', k' <> k -> aget k' d1 = aget k' d).
+Proof.
+  unfold dp_add. destruct (aget k d) as [e|] eqn:G; intros H; inversion H; subst; clear H.
+  - repeat split; eauto. intros e0 H. inversion H; auto.
+  - repeat split.
+    + rewrite aget_aput_eq. eexists; split; eauto.
+    + intros; discriminate.
+    + intros k' N. apply aget_aput_neq; auto.
+Qed.
+
+Lemma dp_prog_spec k r d e :
+  aget k d = Some e ->
+  (exists e', aget k (dp_prog k r d) = Some e' /\ d_swif e' = d_swif e /\
+     (forall a, s_v4 r = Some a -> d_v4 e' = Some a) /\
+     (forall a, s_v6 r = Some a -> d_v6 e' = Some a) /\
+     (forall a, s_pd r = Some a -> d_pd e' = Some a)) /\
+  (forall k', k' <> k -> aget k' (dp_prog k r d) = aget k' d).
+Proof.
+  intros G. unfold dp_prog. rewrite G. split.
+  - rewrite aget_aput_eq. eexists. split; eauto. cbn. repeat split; intros a H; rewrite H; auto.
+  - intros k' N. apply aget_aput_neq; auto.
+Qed.
+
+Lemma In_app_l {A} (x : A) l1 l2 : In x l1 -> In x (l1 ++ l2). Proof. intros; apply in_or_app; auto. Qed.
+
+Lemma prog_log_In c k sw r :
+  In (TA k sw) (prog_log c k sw r) /\ In (TU k) (prog_log c k sw r) /\ In (TV k) (prog_log c k sw r) /\
+  (forall a, s_v4 r = Some a -> In (T4 k a) (prog_log c k sw r)) /\
+  (forall a, s_v6 r = Some a -> In (T6 k a) (prog_log c k sw r)) /\
+  (forall a, s_pd r = Some a -> In (TP k a) (prog_log c k sw r)).
+Proof.
+  unfold prog_log. destruct (c_proto c); repeat split; try (intros a H; rewrite H);
+    repeat (rewrite ?in_app_iff; cbn [In]); auto 12.
+Qed.
+
+Lemma restore_one_other c now f cause store0 s lg k k2 :
+  k2 <> k ->
+  aget k (live (fst (restore_one c now f cause store0 (s, lg) k2))) = aget k (live s) /\
+  aget k (dp (fst (restore_one c now f cause store0 (s, lg) k2))) = aget k (dp s) /\
+  (forall x, In x lg -> In x (snd (restore_one c now f cause store0 (s, lg) k2))).
+Proof.
+  intros NE. unfold restore_one.
+  destruct (aget k2 store0) as [r|]; [|repeat split; auto].
+  destruct (expired c now r). { cbn [fst snd upd_store live dp]. repeat split; auto. intros; apply In_app_l; auto. }
+  destruct (match c_proto c with IPoE => s_appr r && negb (s_crea r) | PPPoE => false end).
+  { cbn [fst snd install upd_store live dp]. rewrite aget_aput_neq; auto. repeat split; auto.
+    intros; apply In_app_l; auto. }
+  destruct (replayed c r).
+  2:{ cbn [fst snd install upd_store live dp]. rewrite aget_aput_neq; auto. }
+  destruct (match f with Some f0 => f0 =? k2 | None => false end).
+  { cbn [fst snd install upd_store live dp]. rewrite aget_aput_neq; auto. repeat split; auto.
+    intros; apply In_app_l; auto. }
+  destruct (dp_add k2 (dp (install c s k2 r)) (dpnext (install c s k2 r))) as [[sw d1] nx1] eqn:DA.
+  apply dp_add_spec in DA. destruct DA as ((e & G & _) & _ & OTH).
+  destruct (dp_prog_spec k2 r d1 e G) as (_ & OTH2).
+  cbn [fst snd live dp]. rewrite !aget_aput_neq, OTH2, OTH; auto. cbn [install live dp].
+  rewrite aget_aput_neq; auto. repeat split; auto.
+  intros; apply In_app_l; auto.
+Qed.
+
+Lemma restore_replay_self c f cause dp0 s lg k r :
+  replayed c r = true -> fails f k = false -> dpinv dp0 k s ->
+  forall sw d1 nx1, dp_add k (dp (install c s k r)) (dpnext (install c s k r)) = (sw, d1, nx1) ->
+  let s' := {| store := store (install c s k r);
+               pend := pend (install c s k r) ++ [(tick (install c s k r), set_prog r sw)];
+               tick := tick (install c s k r) + 1; applied := applied (install c s k r);
+               live := aput k (set_prog r sw) (live (install c s k r)); leases := leases (install c s k r);
+               dp := dp_prog k r d1; dpnext := nx1; released := released (install c s k r);
+               used := used (install c s k r) |} in
+  restoredQ c f cause dp0 k r s' (lg ++ prog_log c k sw r ++ [TR k cause]) /\ dpinv dp0 k s'.
+Proof.
+  intros RP FL DI sw d1 nx1 DA s'.
+  apply dp_add_spec in DA. destruct DA as ((e & Ge & SW) & PRES & _).
+  destruct (dp_prog_spec k r d1 e Ge) as ((e' & Ge' & SW' & P4 & P6 & PP) & _).
+  cbn [install dp] in PRES.
+  split.
+  - exists (set_prog r sw). unfold s'. cbn [live]. rewrite aget_aput_eq. split; auto.
+    split; [apply same_core_prog|]. intros _ _. exists sw. split; auto.
+    destruct (prog_log_In c k sw r) as (LA & LU & LV & L4 & L6 & LP).
+    assert (M : forall x, In x (prog_log c k sw r) -> In x (lg ++ prog_log c k sw r ++ [TR k cause])).
+    { intros x H. apply in_or_app. right. apply in_or_app. auto. }
+    split; [auto|]. split; [apply in_or_app; right; apply in_or_app; right; cbn; auto|].
+    split; [auto|]. split; [auto|]. split; [intros; auto|]. split; [intros; auto|]. split; [intros; auto|].
+    split.
+    + cbn [dp]. exists e'. rewrite SW', SW. repeat split; auto.
+    + intros e0 H0. destruct (DI e0 H0) as (e1 & G1 & S1). rewrite (PRES e1 G1). auto.
+  - intros e0 H0. destruct (DI e0 H0) as (e1 & G1 & S1). unfold s'. cbn [dp].
+    exists e'. split; auto. rewrite SW', SW, (PRES e1 G1). auto.
+Qed.
+
+Lemma restore_one_self c now f cause store0 dp0 s lg k r :
+  aget k store0 = Some r -> expired c now r = false -> dpinv dp0 k s ->
+  restoredQ c f cause dp0 k r (fst (restore_one c now f cause store0 (s, lg) k))
+            (snd (restore_one c now f cause store0 (s, lg) k)) /\
+  dpinv dp0 k (fst (restore_one c now f cause store0 (s, lg) k)).
+Proof.
+  intros G EX DI. unfold restore_one. rewrite G, EX.
+  destruct (match c_proto c with IPoE => s_appr r && negb (s_crea r) | PPPoE => false end) eqn:HALF.
+  { cbn [fst snd]. split; [|exact DI]. exists (set_appr r false). cbn [install live]. rewrite aget_aput_eq.
+    split; auto. split; [apply same_core_appr|]. intros RP. exfalso. unfold replayed in RP.
+    destruct (c_proto c); [rewrite HALF in RP|]; discriminate. }
+  destruct (replayed c r) eqn:RP.
+  2:{ cbn [fst snd]. split; [|exact DI]. exists r. cbn [install live]. rewrite aget_aput_eq.
+      split; auto. split; [apply same_core_refl|]. intros RP'. congruence. }
+  destruct (match f with Some f0 => f0 =? k | None => false end) eqn:FL.
+  { cbn [fst snd]. split; [|exact DI]. exists r. cbn [install live]. rewrite aget_aput_eq.
+    split; auto. split; [apply same_core_refl|]. unfold fails. rewrite FL. discriminate. }
+  destruct (dp_add k (dp (install c s k r)) (dpnext (install c s k r))) as [[sw d1] nx1] eqn:DA.
+  cbn [fst snd].
+  apply (restore_replay_self c f cause dp0 s lg k r RP FL); auto.
+Qed.
+
+Lemma restoredQ_other c now f cause store0 dp0 s lg k r k2 :
+  k2 <> k -> restoredQ c f cause dp0 k r s lg -> dpinv dp0 k s ->
+  restoredQ c f cause dp0 k r (fst (restore_one c now f cause store0 (s, lg) k2))
+            (snd (restore_one c now f cause store0 (s, lg) k2)) /\
+  dpinv dp0 k (fst (restore_one c now f cause store0 (s, lg) k2)).
+Proof.
+  intros NE Q DI. destruct (restore_one_other c now f cause store0 s lg k k2 NE) as (L & D & LG).
+  split.
+  - destruct Q as (r' & GL & SC & REST). exists r'. rewrite L. split; auto. split; auto.
+    intros RP FL. destruct (REST RP FL) as (sw & E & A1 & A2 & A3 & A4 & A5 & A6 & A7 & (e & Ge & Pe) & A9).
+    exists sw. split; auto. repeat split; auto. exists e. rewrite D. auto.
+  - intros e0 H0. rewrite D. auto.
+Qed.
+
+Lemma restore_fold_Q c now f cause store0 dp0 k r ks : forall s lg,
+  aget k store0 = Some r -> expired c now r = false -> dpinv dp0 k s ->
+  (restoredQ c f cause dp0 k r s lg \/ In k ks) ->
+  restoredQ c f cause dp0 k r (fst (fold_left (restore_one c now f cause store0) ks (s, lg)))
+            (snd (fold_left (restore_one c now f cause store0) ks (s, lg))).
+Proof.
+  induction ks as [|k0 ks IH]; intros s lg G EX DI H; cbn [fold_left].
+  - destruct H as [H|H]; [auto|destruct H].
+  - destruct (N.eq_dec k0 k) as [E|NE].
+    + subst k0. destruct (restore_one_self c now f cause store0 dp0 s lg k r G EX DI) as (Q & DI').
+      destruct (restore_one c now f cause store0 (s, lg) k) as [s1 lg1]. apply IH; auto.
+    + destruct H as [Q|[E|IN]]; [|contradiction|].
+      * destruct (restoredQ_other c now f cause store0 dp0 s lg k r k0 NE Q DI) as (Q' & DI').
+        destruct (restore_one c now f cause store0 (s, lg) k0) as [s1 lg1]. apply IH; auto.
+      * destruct (restore_one_other c now f cause store0 s lg k k0 NE) as (L & D & LG).
+        assert (DI' : dpinv dp0 k (fst (restore_one c now f cause store0 (s, lg) k0))).
+        { intros e0 H0. rewrite D. auto. }
+        destruct (restore_one c now f cause store0 (s, lg) k0) as [s1 lg1]. apply IH; auto.
+Qed.
+
+(* T2 *)
+Lemma established_restored c s (p : bool) f now k r :
+  aget k (store s) = Some r -> expired c now r = false ->
+  let dp0 := if p then dp s else [] in
+  let cause := match dp0 with [] => 1 | _ => 0 end in
+  exists lg, snd (do_crash c s p f now) = OCrash lg /\
+             restoredQ c f cause dp0 k r (fst (do_crash c s p f now)) lg.
+Proof.
+  intros G EX dp0 cause. unfold do_crash. fold dp0. fold cause.
+  match goal with |- context [fold_left ?F ?L ?A] => set (FL := fold_left F L A) end.
+  assert (Q : restoredQ c f cause dp0 k r (fst FL) (snd FL)).
+  { unfold FL. apply restore_fold_Q; auto.
+    - intros e0 H0. cbn [dp]. eauto.
+    - right. apply isort_In. eapply aget_In; eauto. }
+  destruct FL as [s1 lg]. cbn [fst snd] in *. exists lg. auto.
+Qed.
+
+(* ---------------------------------------------------------------- T3 (restore level): addresses are reserved again *)
+Definition reserves (c : cfg) : Prop := c_proto c = IPoE \/ c_reserve c = true.
+
+(* images of different sessions do not share an in-pool address *)
+Definition disjoint_images (c : cfg) (store0 : list (N * sess)) : Prop :=
+  forall k k' r r' ad, aget k store0 = Some r -> aget k' store0 = Some r' ->
+    In ad (addrs r) -> In ad (addrs r') -> inpool c ad = true -> k = k'.
+
+Lemma restore_one_shape c now f cause store0 s lg k :
+  reserves c ->
+  let s' := fst (restore_one c now f cause store0 (s, lg) k) in
+  (live s' = live s /\ leases s' = leases s) \/
+  (exists r0 rX, aget k store0 = Some r0 /\ addrs rX = addrs r0 /\ aget k (live s') = Some rX /\
+     (forall k', k' <> k -> aget k' (live s') = aget k' (live s)) /\
+     leases s' = reserve_all c k (leases s) (addrs r0)).
+Proof.
+  intros RS s'. unfold s', restore_one.
+  destruct (aget k store0) as [r|] eqn:G; [|left; auto].
+  destruct (expired c now r). { left. auto. }
+  assert (LS : forall s0 rX, addrs rX = addrs r ->
+           leases (install c s0 k rX) = reserve_all c k (leases s0) (addrs r)).
+  { intros s0 rX E. cbn [install leases]. rewrite E.
+    destruct RS as [RS|RS]; rewrite RS; auto. destruct (c_proto c); auto. }
+  destruct (match c_proto c with IPoE => s_appr r && negb (s_crea r) | PPPoE => false end).
+  { right. exists r, (set_appr r false). cbn [fst]. rewrite LS; auto. cbn [install live upd_store leases].
+    rewrite aget_aput_eq. repeat split; auto. intros; apply aget_aput_neq; auto. }
+  destruct (replayed c r).
+  2:{ right. exists r, r. cbn [fst]. rewrite LS; auto. cbn [install live]. rewrite aget_aput_eq.
+      repeat split; auto. intros; apply aget_aput_neq; auto. }
+  destruct (match f with Some f0 => f0 =? k | None => false end).
+  { right. exists r, r. cbn [fst]. rewrite LS; auto. cbn [install live]. rewrite aget_aput_eq.
+    repeat split; auto. intros; apply aget_aput_neq; auto. }
+  destruct (dp_add k (dp (install c s k r)) (dpnext (install c s k r))) as [[sw d1] nx1].
+  right. exists r, (set_prog r sw). cbn [fst live leases]. rewrite LS; auto. rewrite aget_aput_eq.
+  repeat split; auto. intros k' NE. rewrite aget_aput_neq; auto. cbn [install live]. apply aget_aput_neq; auto.
+Qed.
+
+Lemma reserve_spec c k ls ad :
+  (forall o, aget ad ls = Some o -> o = k) ->
+  let ls' := reserve c k ls ad in
+  (inpool c ad = true -> aget ad ls' = Some k) /\
+  (forall x o, aget x ls = Some o -> aget x ls' = Some o) /\
+  (forall x o, aget x ls' = Some o -> aget x ls = Some o \/ (o = k /\ x = ad /\ inpool c ad = true)).
+Proof.
+  intros OWN ls'. unfold ls', reserve. destruct (inpool c ad) eqn:IP.
+  - destruct (aget ad ls) as [o|] eqn:G.
+    + rewrite (OWN o eq_refl) in *. repeat split; auto.
+    + repeat split.
+      * intros _. apply aget_aput_eq.
+      * intros x o H. rewrite aget_aput. eqb_case x ad; [congruence|auto].
+      * intros x o. rewrite aget_aput. eqb_case x ad; [intros H; inversion H; auto|auto].
+  - repeat split; auto. discriminate.
+Qed.
+
+Lemma reserve_all_spec c k ads : forall ls,
+  (forall ad o, In ad ads -> aget ad ls = Some o -> o = k) ->
+  let ls' := reserve_all c k ls ads in
+  (forall ad, In ad ads -> inpool c ad = true -> aget ad ls' = Some k) /\
+  (forall x o, aget x ls = Some o -> aget x ls' = Some o) /\
+  (forall x o, aget x ls' = Some o -> aget x ls = Some o \/ (o = k /\ In x ads /\ inpool c x = true)).
+Proof.
+  induction ads as [|a ads IH]; intros ls OWN; cbn [reserve_all fold_left].
+  - repeat split; auto. intros ad [].
+  - destruct (reserve_spec c k ls a) as (A1 & A2 & A3). { intros o H. eapply OWN; eauto. left; auto. }
+    destruct (IH (reserve c k ls a)) as (B1 & B2 & B3).
+    { intros ad o IN H. destruct (A3 _ _ H) as [H'|(E & _)]; auto. eapply OWN; eauto. right; auto. }
+    fold (reserve_all c k (reserve c k ls a) ads). repeat split.
+    + intros ad [E|IN] IP; [subst; apply B2; auto | apply B1; auto].
+    + intros x o H. apply B2, A2. auto.
+    + intros x o H. destruct (B3 _ _ H) as [H'|(E & IN & IP)].
+      * destruct (A3 _ _ H') as [H2|(E & E2 & IP)]; auto. subst. right. repeat split; auto. left; auto.
+      * right. repeat split; auto. right; auto.
+Qed.
+
+Record linv (c : cfg) (store0 : list (N * sess)) (s : st) : Prop := {
+  l_live : forall k r', aget k (live s) = Some r' -> exists r0, aget k store0 = Some r0 /\ addrs r' = addrs r0;
+  l_lease : forall ad k, aget ad (leases s) = Some k ->
+              exists r0, aget k store0 = Some r0 /\ In ad (addrs r0) /\ inpool c ad = true;
+  l_own : forall k r' ad, aget k (live s) = Some r' -> In ad (addrs r') -> inpool c ad = true ->
+            aget ad (leases s) = Some k }.
+
+Lemma restore_one_linv c now f cause store0 s lg k :
+  reserves c -> disjoint_images c store0 -> linv c store0 s ->
+  linv c store0 (fst (restore_one c now f cause store0 (s, lg) k)).
+Proof.
+  intros RS DJ LI.
+  destruct (restore_one_shape c now f cause store0 s lg k RS) as [(E1 & E2)|(r0 & rX & G & EA & GL & OTH & LS)].
+  { destruct LI. constructor; rewrite ?E1, ?E2; auto. }
+  destruct LI.
+  destruct (reserve_all_spec c k (addrs r0) (leases s)) as (B1 & B2 & B3).
+  { intros ad o IN H. destruct (l_lease0 _ _ H) as (r1 & G1 & IN1 & IP). eapply DJ; eauto. }
+  constructor.
+  - intros k0 r'. destruct (N.eq_dec k0 k) as [E|NE].
+    + subst. rewrite GL. intros H. inversion H; subst. eauto.
+    + rewrite OTH; auto.
+  - intros ad k0. rewrite LS. intros H. destruct (B3 _ _ H) as [H'|(E & IN & IP)]; auto. subst. eauto.
+  - intros k0 r' ad. rewrite LS. destruct (N.eq_dec k0 k) as [E|NE].
+    + subst. rewrite GL. intros H IN IP. inversion H; subst. apply B1; auto. rewrite <- EA. auto.
+    + rewrite OTH; auto. intros H IN IP. apply B2. eauto.
+Qed.
+
+Lemma restore_fold_linv c now f cause store0 ks : forall s lg,
+  reserves c -> disjoint_images c store0 -> linv c store0 s ->
+  linv c store0 (fst (fold_left (restore_one c now f cause store0) ks (s, lg))).
+Proof.
+  induction ks as [|k ks IH]; intros s lg RS DJ LI; cbn [fold_left]; auto.
+  pose proof (restore_one_linv c now f cause store0 s lg k RS DJ LI) as LI'.
+  destruct (restore_one c now f cause store0 (s, lg) k) as [s1 lg1]. apply IH; auto.
+Qed.
+
+Lemma code_inpool c f a : f < 3 -> a < fam_size c f -> inpool c (code f a) = true.
+Proof.
+  intros F A. unfold inpool, code.
+  assert (E1 : (3 * a + f) / 3 = a) by (symmetry; apply (N.div_unique (3 * a + f) 3 a f); lia).
+  assert (E2 : (3 * a + f) mod 3 = f) by (symmetry; apply (N.mod_unique (3 * a + f) 3 a f); lia).
+  rewrite E1, E2. apply N.ltb_lt. auto.
+Qed.
+
+(* T3, restore level *)
+Lemma reserved_after_restore c s (p : bool) f now :
+  reserves c -> disjoint_images c (store s) ->
+  let s' := fst (do_crash c s p f now) in
+  (forall k r ad, aget k (live s') = Some r -> In ad (addrs r) -> inpool c ad = true ->
+                  aget ad (leases s') = Some k) /\
+  (forall fam a, fam < 3 -> alloc_ok c (leases s') fam (Some a) = true ->
+                 forall k r, aget k (live s') = Some r -> ~ In (code fam a) (addrs r)).
+Proof.
+  intros RS DJ s'.
+  assert (LI : linv c (store s) s').
+  { unfold s', do_crash.
+    match goal with |- context [fold_left (restore_one c now f ?CA (store s)) ?L (?S0, ?LG)] =>
+      pose proof (restore_fold_linv c now f CA (store s) L S0 LG RS DJ) as H end.
+    destruct (fold_left _ _ _) as [s1 lg]. cbn [fst] in *. apply H.
+    constructor; cbn [live leases]; intros; discriminate. }
+  split.
+  - intros k r ad. apply (l_own _ _ _ LI).
+  - intros fam a F OK k r G IN. unfold alloc_ok in OK. apply andb_prop in OK. destruct OK as (A & B).
+    apply N.ltb_lt in A. pose proof (l_own _ _ _ LI k r _ G IN (code_inpool c fam a F A)) as L.
+    unfold amem in B. rewrite L in B. discriminate.
+Qed.
